@@ -15,6 +15,7 @@ import json
 import os
 import re
 import shutil
+import time
 
 from vlib import BUILD, Check, RunnerPool, compile_job, driver, hexs, log
 
@@ -685,15 +686,18 @@ def run(tier, seed):
         "layouts with two existing files in the winning same-priority group (dart-sass: ambiguous) are excluded from P̂ "
         "(grass has no such error and takes the first in probe order; the tie with the model is still checked on them)"]
     ck.do_prove(cores=("import",))
+    log(f"[C13] proof step done at {time.time() - ck.t0:.0f}s")
     if not ck.do_build_runner():
         ck.unproved("correspondence-broken", {"why": "runner does not build against /repo", "error": getattr(ck, "build_error", "")})
         return ck.finish()
+    log(f"[C13] runner built at {time.time() - ck.t0:.0f}s")
     ctx = Ctx(ck, RunnerPool())
     ctx.disagreements = []
     try:
         return _run(ck, ctx, tier)
     finally:
         ctx.cleanup()
+        log(f"[C13] cleaned up at {time.time() - ck.t0:.0f}s")
 
 
 def _run(ck, ctx, tier):
